@@ -89,7 +89,6 @@ def run(c):
                      "exact multiples +-1, tiny B with huge L (N >= 2^31) and mixed magnitudes; every triple is non-trivial (valid input); distinct = distinct triples")
     c.cov["samples"] = ["B %d %d %d" % cases[0], "B %d %d %d" % cases[len(cases) // 2], "B %d %d %d" % cases[-1]]
     c.cov["translator_skipped"] = g["skipped"]
-    c.cov["partial"] = "float layer: N, A_large, A_small proved whenever the function returns; definedness of the last conversion and I = T mod N are covered by the correspondence only"
     c.trusted = vlib.BASE_TRUST + [
         "tools/c2gallina.py + CSem.v (C operators: UINT32 values, IEEE binary64 round-to-nearest-even via Flocq, ceil/floor = Bnearbyint)",
         "Blocking.v: RFC 5052 section 9.1 partitioning transcribed from memory (the RFC text is not available offline)",
